@@ -66,8 +66,8 @@ func checkLogfmtRecord(rc recCase, payloads []string, pan string) (clause, detai
 	if !ok {
 		return "field-order", fmt.Sprintf("first pair is not time=; payload %.200q", p)
 	}
-	if _, err := time.Parse(slog.VerifDefaultLayout(), tp.Val); err != nil || !tp.Quoted {
-		return "time-field", fmt.Sprintf("time %q does not parse with layout %q (or is not quoted)", tp.Raw, slog.VerifDefaultLayout())
+	if _, err := time.Parse(refDefaultLayout(), tp.Val); err != nil || !tp.Quoted {
+		return "time-field", fmt.Sprintf("time %q does not parse with layout %q (or is not quoted)", tp.Raw, refDefaultLayout())
 	}
 	if rc.Named {
 		lp, ok := next("logger")
